@@ -209,6 +209,15 @@ inline Report execute_forked(std::vector<uint32_t> const& v, unsigned watchdog_m
   std::ostringstream m;
   if (WIFSIGNALED(status)) m << "child killed by signal " << WTERMSIG(status);
   else m << "child exited with status " << WEXITSTATUS(status) << " without report";
+  // a sanitizer's one-line verdict first (the report itself is long)
+  for (char const* key : {"SUMMARY: ", "WARNING: ThreadSanitizer: ", "runtime error: "})
+  {
+    size_t pos = err.find(key);
+    if (pos == std::string::npos) continue;
+    size_t end = err.find('\n', pos);
+    m << " | " << err.substr(pos, (end == std::string::npos ? err.size() : end) - pos);
+    break;
+  }
   // keep the head of a sanitizer report (the summary line is near the top)
   std::string e = err;
   if (e.size() > 1800) e = e.substr(0, 1200) + " ... " + tail(e, 500);
